@@ -112,6 +112,7 @@ func (sc *StateCache) commit(bc *BlockCache) {
 			if err != nil {
 				panic(err)
 			}
+			verifPerKeyMap(bvsi)
 		}
 
 		bvs := bvsi.(*lru.Cache)
